@@ -810,6 +810,246 @@ def stream_types(ctx):
     return s
 
 
+# ----------------------------------------------------------------------------- (T) dtype of the stored matrices
+
+# array dtypes the unmodified implementation accepts for hermitian_part / antisymmetric_part in every combination probed
+# (chemical potential zero / non-zero, with / without antisymmetric part, C / Fortran order), hard-coded from a probe of the
+# pinned tree; float16 is rejected by numpy.linalg.eigh when mu = 0 and there is no antisymmetric part, object arrays are
+# rejected everywhere - both are left out; a bool hermitian_part with mu = 0 and a non-zero antisymmetric part is rejected too
+# (majorana_form subtracts the stored boolean matrix: numpy TypeError)
+DT_EXACT = ['int64', 'int32', 'int16', 'int8', 'uint8', 'bool', 'float64', 'complex128']
+DT_SINGLE = ['float32', 'complex64']
+DT_POOL = ['int64', 'int32', 'int8', 'bool', 'float32', 'complex64', 'int16', 'uint8', 'float64', 'complex128']
+MU_POOL0 = [(0, 'pyint'), (0.0, 'pyfloat'), (0, 'np.int64'), (0.0, 'np.float64')]
+MU_POOL1 = [(0.5, 'pyfloat'), (-1.5, 'pyfloat'), (1, 'pyint'), (2.0, 'np.float64'), (-1, 'np.int64'), (0.25, 'np.float32')]
+
+
+def dt_entry(rng, dt, diag):
+    if dt == 'bool':
+        return rng.choice([0, 1, 1])
+    if dt == 'uint8':
+        return rng.choice([0, 1, 2, 3]) if diag else rng.choice([1, 2, 3])
+    if dt.startswith('int'):
+        return rng.choice([-3, -2, -1, 0, 1, 2, 3]) if diag else rng.choice([-2, -1, 1, 2, 3])
+    if dt.startswith('float') or diag:
+        return rng.choice([-1.5, -0.5, 0.25, 1.0, 2.5, -2.0, 3.0]) if diag else rng.choice([-0.5, 0.25, 1.0, -2.0, 1.5])
+    return complex(rng.choice([-0.5, 0.25, 1.0, -2.0, 0.0]), rng.choice([-1.0, 0.5, 0.25, 2.0]))
+
+
+def dt_hermitian(rng, n, dt, structure):
+    """a Hermitian matrix whose entries are exactly representable in `dt`; 'spinblock': the two off-diagonal n/2 blocks vanish
+    and the up and down blocks differ"""
+    for _ in range(50):
+        M = np.zeros((n, n), dtype=complex)
+        h = n // 2
+        for i in range(n):
+            M[i, i] = dt_entry(rng, dt, True)
+            for j in range(i + 1, n):
+                if structure == 'spinblock' and (i < h) != (j < h):
+                    continue
+                if rng.random() < 0.85:
+                    v = dt_entry(rng, dt, False)
+                    M[i, j] = v
+                    M[j, i] = np.conj(v)
+        if structure != 'spinblock' or h < 1 or not np.array_equal(M[:h, :h], M[h:, h:]):
+            return M
+    return M
+
+
+def dt_antisymmetric(rng, n, dt, structure):
+    D = np.zeros((n, n), dtype=complex)
+    if dt in ('bool', 'uint8') or n < 2:
+        return D        # the only antisymmetric matrix these types can hold
+    for _ in range(rng.choice([1, 1, 2])):
+        i, j = rng.sample(range(n), 2)
+        v = dt_entry(rng, dt, False)
+        D[i, j] = v
+        D[j, i] = -v
+    return D
+
+
+def dt_array(A, dt, order):
+    """A (complex array with values representable in dt) as an array of dtype dt in the given memory order; None if not exact"""
+    A = np.asarray(A)
+    src = A if dt.startswith('complex') else A.real
+    if not dt.startswith('complex') and np.abs(A.imag).max() != 0:
+        return None
+    T = np.array(src, dtype=dt, order=order)
+    if not np.array_equal(T.astype(complex), A):
+        return None
+    return T
+
+
+def circ_equal(a, b, tol):
+    """two circuit descriptions (lists of layers of 'pht' / (i, j, theta, phi)) agree"""
+    if len(a) != len(b):
+        return False
+    for la, lb in zip(a, b):
+        if len(la) != len(lb):
+            return False
+        for x, y in zip(la, lb):
+            if isinstance(x, str) or isinstance(y, str):
+                if x != y:
+                    return False
+                continue
+            if int(x[0]) != int(y[0]) or int(x[1]) != int(y[1]):
+                return False
+            if abs(float(x[2]) - float(y[2])) > tol or abs(float(x[3]) - float(y[3])) > tol:
+                return False
+    return True
+
+
+def run_dtype_case(ctx, s, c, spec_reqs, model_reqs, n_occ):
+    """all checks for one Hamiltonian stored with the recorded dtypes (deterministic in the case record)"""
+    import warnings
+    of = ctx.of
+    QH = of.ops.QuadraticHamiltonian
+    M, D, const, mu = ham_from_case(of, c)
+    n = M.shape[0]
+    Mt = dt_array(M, c['M_dtype'], c['order'])
+    Dt = None if D is None else dt_array(D, c['Delta_dtype'], c['order'])
+    mut = typed_scalar(mu, c['mu_type'])
+    Mt0, Dt0 = Mt.copy(), None if Dt is None else Dt.copy()
+    real = np.abs(M.imag).max() == 0 and (D is None or np.abs(D.imag).max() == 0)
+    ref_dt = float if real else complex
+    try:
+        H = QH(Mt, Dt, const, mut)
+        Href = QH(np.array(M.real if real else M, dtype=ref_dt), None if D is None else np.array(D.real if real else D, dtype=ref_dt),
+                  const, float(mu))
+    except Exception as e:
+        s.violate('QuadraticHamiltonian(%s array) raised %s: %s' % (c['M_dtype'], type(e).__name__, e), c, {})
+        return
+    Mc = M - mu * np.eye(n)
+    check_obj(ctx, s, c, H, Mc, D, const, spec_reqs, model_reqs, n_occ)
+    tol = SINGLE_TOL if c.get('single_precision') else TOL
+    try:
+        es, W, cst = H.diagonalizing_bogoliubov_transform()
+        er, Wr, cr = Href.diagonalizing_bogoliubov_transform()
+        es, er, W, Wr = np.asarray(es, dtype=float), np.asarray(er, dtype=float), np.asarray(W), np.asarray(Wr)
+        conserving = W.shape == (n, n)
+        s.float_comparisons += 4
+        if W.shape != Wr.shape or err(es - er) > tol or abs(complex(cst) - complex(cr)) > tol:
+            s.violate('orbital energies / constant / shape of W for the %s matrix differ from the float64 / complex128 result'
+                      % c['M_dtype'], c, {'energies': es.tolist(), 'reference': er.tolist()})
+            return
+        if conserving:
+            if err(W @ W.conj().T - np.eye(n)) > tol:
+                s.violate('W W^dagger != 1 for the %s matrix' % c['M_dtype'], c, {'W': [[str(x) for x in r] for r in W]})
+            if err(W.T @ np.diag(es) @ W.conj() - Mc) > tol:
+                s.violate('W^T diag(eps) W^* != M - mu for the %s matrix' % c['M_dtype'], c, {'W': [[str(x) for x in r] for r in W]})
+        same = bool(err(W - Wr) <= (tol if c.get('single_precision') else 1e-10))
+        s.count('W-equals-reference:%s' % same)
+        # deprecated accessor
+        with warnings.catch_warnings():
+            warnings.simplefilter('ignore')
+            oe, oc = H.orbital_energies()
+        if err(np.asarray(oe, dtype=float) - es) > 0 or complex(oc) != complex(cst):
+            s.violate('orbital_energies() differs from diagonalizing_bogoliubov_transform()', c, {})
+        # spin sectors
+        if n % 2 == 0:
+            h = n // 2
+            for sct in (0, 1):
+                if conserving:
+                    e_s, W_s, c_s = H.diagonalizing_bogoliubov_transform(spin_sector=sct)
+                    e_s, W_s = np.asarray(e_s, dtype=float), np.asarray(W_s)
+                    blk = Mc[sct * h:(sct + 1) * h, sct * h:(sct + 1) * h]
+                    s.float_comparisons += 3
+                    s.count('spin-sector')
+                    if (W_s.shape != (h, h) or err(W_s @ W_s.conj().T - np.eye(h)) > tol
+                            or err(W_s.T @ np.diag(e_s) @ W_s.conj() - blk) > tol or err(e_s - np.linalg.eigvalsh(blk)) > tol
+                            or abs(complex(c_s) - const) > tol):
+                        s.violate('diagonalizing_bogoliubov_transform(spin_sector=%d) does not diagonalise the spin block of the '
+                                  '%s matrix' % (sct, c['M_dtype']), c, {'W': [[str(x) for x in r] for r in W_s]})
+                else:
+                    try:
+                        H.diagonalizing_bogoliubov_transform(spin_sector=sct)
+                        s.violate('spin_sector accepted for a non-conserving Hamiltonian (NotImplementedError for complex128 '
+                                  'input)', c, {})
+                    except NotImplementedError:
+                        s.count('spin-sector:not-implemented')
+        # circuits: compared with those of the float64 / complex128 object whenever the transforms coincide
+        dc, dcr = H.diagonalizing_circuit(), Href.diagonalizing_circuit()
+        gc, gcr = of.circuits.gaussian_state_preparation_circuit(H), of.circuits.gaussian_state_preparation_circuit(Href)
+        occ = [0] if n < 3 else [0, 2]
+        ge_, ger = (of.circuits.gaussian_state_preparation_circuit(H, occ),
+                    of.circuits.gaussian_state_preparation_circuit(Href, occ))
+        if same:
+            ctol = 1e-3 if c.get('single_precision') else 1e-9
+            s.count('circuits-compared')
+            s.float_comparisons += 3
+            if not circ_equal(dc, dcr, ctol):
+                s.violate('diagonalizing_circuit of the %s matrix differs from the one of the float64 / complex128 matrix'
+                          % c['M_dtype'], c, {'circuit': show(dc)[:400], 'reference': show(dcr)[:400]})
+            for (g, gr_), nm in (((gc, gcr), 'default'), ((ge_, ger), 'explicit')):
+                if not circ_equal(g[0], gr_[0], ctol) or list(g[1]) != list(gr_[1]):
+                    s.violate('gaussian_state_preparation_circuit (%s occupation) of the %s matrix differs from the one of the '
+                              'float64 / complex128 matrix' % (nm, c['M_dtype']), c, {})
+        else:
+            s.count('circuits-not-compared(gauge)')
+            if len(dc) != len(dcr):
+                s.violate('diagonalizing_circuit of the %s matrix has a different depth' % c['M_dtype'], c, {})
+    except Exception as e:
+        s.violate('%s matrix: %s: %s' % (c['M_dtype'], type(e).__name__, e), c, {})
+    if (not np.array_equal(Mt, Mt0) or Mt.dtype != Mt0.dtype
+            or (Dt is not None and (not np.array_equal(Dt, Dt0) or Dt.dtype != Dt0.dtype))):
+        s.violate('the constructor / diagonalisation modified its array arguments', c, {})
+
+
+def stream_dtypes(ctx):
+    s = Stream('dtypes', '(T) hermitian_part / antisymmetric_part stored as int64, int32, int16, int8, uint8, bool, float32, '
+               'complex64 (and float64, complex128) arrays in C and Fortran order (the types the pinned tree accepts, hard-coded), '
+               'chemical potential zero and non-zero of several scalar types, with and without antisymmetric part, even and odd '
+               'sizes, spin-block-diagonal (different up / down blocks) and dense: all oracles of the energies stream, W W^dagger = 1, '
+               'W^T diag(eps) W^* = M - mu, spin sectors 0 / 1, orbital_energies, and energies / W / circuits against the same matrix '
+               'stored as float64 / complex128; distinct = distinct (values, types)')
+    rng = rng_for(ctx.seed, 'c12-dtypes')
+    N = budget(ctx.tier, 100, 700)
+    if ctx.drift:
+        N = max(N, 300)
+    spec_reqs, model_reqs = [], []
+    for t in range(N):
+        dt = DT_POOL[t % len(DT_POOL)]
+        order = 'CF'[(t // len(DT_POOL)) % 2]
+        structure = rng.choice(['spinblock', 'spinblock', 'dense'])
+        n = rng.choice([4, 4, 6, 2]) if structure == 'spinblock' else rng.choice([2, 3, 3, 4, 5])
+        if n == 6 and ctx.tier != 'thorough' and rng.random() < 0.5:
+            n = 4
+        M = dt_hermitian(rng, n, dt, structure)
+        D, dD = None, None
+        if rng.random() < 0.35:
+            dD = rng.choice(DT_POOL)
+            D = dt_antisymmetric(rng, n, dD, structure)
+        mu, kmu = rng.choice(MU_POOL0) if rng.random() < 0.5 else rng.choice(MU_POOL1)
+        const = rng.choice([0.0, 1.0, -0.5])
+        if dt_array(M, dt, order) is None or (D is not None and dt_array(D, dD, order) is None):
+            s.count('values-do-not-fit-type')
+            continue
+        if dt == 'bool' and mu == 0 and D is not None and D.any():
+            # rejected by the pinned tree: majorana_form subtracts the stored boolean matrix (numpy TypeError)
+            s.count('rejected-by-pinned-tree:bool-matrix-with-pairing')
+            continue
+        c = case_of(M, D, const, mu, 'dtypes')
+        c.update({'structure': structure, 'M_dtype': dt, 'Delta_dtype': dD, 'order': order, 'mu_type': kmu,
+                  'single_precision': dt in DT_SINGLE or dD in DT_SINGLE})
+        s.case(c)
+        s.count('M:' + dt)
+        s.count('order:' + order)
+        s.count('structure:' + structure)
+        s.count('mu:%s' % ('zero' if mu == 0 else 'nonzero'))
+        s.count('Delta:%s' % ('none' if D is None else ('zero' if not D.any() else 'nonzero')))
+        s.count('n:%s' % ('even' if n % 2 == 0 else 'odd'))
+        run_dtype_case(ctx, s, c, spec_reqs, model_reqs, 2)
+    ans = ctx.driver.run([r for _, r, _, _ in spec_reqs])
+    for (c, _, w, ret), a in zip(spec_reqs, ans):
+        s.count('oracle:subset-sum-spectrum')
+        sp = np.array([rat_float(x) for x in a['spectrum']])
+        s.float_comparisons += len(sp)
+        if sp.shape != w.shape or err(sp - w) > (SINGLE_TOL if c.get('single_precision') else TOL):
+            s.violate('subset sums of the orbital energies + constant are not the spectrum of H', c,
+                      dict(ret, subset_sums=sp.tolist(), spectrum=w.tolist()))
+    return s
+
+
 def haar(nprng, n):
     z = nprng.normal(size=(n, n)) + 1j * nprng.normal(size=(n, n))
     q, r = np.linalg.qr(z)
@@ -1089,7 +1329,10 @@ def replay(ctx, payload):
             M, D, const, mu = ham_from_case(of, inp)
             s = Stream('replay', '')
             sr, mr = [], []
-            if inp.get('kind') == 'types':
+            if inp.get('kind') == 'dtypes':
+                run_dtype_case(ctx, s, {k: v_ for k, v_ in inp.items() if k not in ('occupied_orbitals', 'annihilation_block_singular',
+                                                                              'conserves_particle_number')}, sr, mr, 64)
+            elif inp.get('kind') == 'types':
                 n = M.shape[0]
                 Mt = typed(M, inp['M_type'])
                 Dt = None if D is None else typed(D, inp['Delta_type'])
@@ -1113,5 +1356,5 @@ def replay(ctx, payload):
 
 
 def run(ctx):
-    return [stream_majorana(ctx), stream_energies(ctx), stream_history(ctx), stream_types(ctx), stream_slater(ctx),
-            stream_canonical(ctx)]
+    return [stream_majorana(ctx), stream_energies(ctx), stream_history(ctx), stream_types(ctx), stream_dtypes(ctx),
+            stream_slater(ctx), stream_canonical(ctx)]
